@@ -4,6 +4,7 @@ import (
 	"errors"
 	"fmt"
 	"reflect"
+	"runtime"
 	"sort"
 	"time"
 	"unsafe"
@@ -68,7 +69,7 @@ func (c10Prop) Assumptions() []string {
 	}
 }
 
-var c10Types = []string{"Mixed", "Nested", "Ptrs", "Slices", "Maps", "Timed", "Flat", "Mixed", "Nested"}
+var c10Types = []string{"Mixed", "Nested", "Ptrs", "Slices", "Maps", "Timed", "Flat", "Mixed", "Nested", "PlainOmit", "Omit", "PtrSlices", "PtrSlices"}
 
 var c10AllocTypes = []reflect.Type{
 	reflect.TypeFor[int64](), reflect.TypeFor[bool](), reflect.TypeFor[string](), reflect.TypeFor[[]byte](),
@@ -111,8 +112,10 @@ func (c10Prop) Generate(seed uint64, idx int, tier string) *Plan {
 			op.Op = "step"
 		case x < 72:
 			op.Op = "close"
-		case x < 74:
+		case x < 73:
 			op.Op = "abort"
+		case x < 75:
+			op.Op = "gc"
 		case x < 81:
 			op.Op = "ualloc"
 		case x < 87:
@@ -751,6 +754,17 @@ func (c10Prop) Execute(p *Plan, run *Run) any {
 				fail(opi, "c10/inherited-or-corrupt-at-delivery", "step", fmt.Sprintf("op %d: record %d of task %d differs from the same record read with fresh banks only (stale or foreign content): %s", opi, i, t.idx, where))
 				break
 			}
+			sigged()
+			checkAll(opi, what)
+		case "gc":
+			// A collection may run at any time in a real program: everything
+			// still held must survive it (and the reuse of whatever it freed).
+			runtime.GC()
+			doChurn(ChurnSpec{N: 4, ByteSizes: []int{8, 16, 32, 64, 128}, PtrLens: []int{1, 2, 4, 8, 16}, MapEntries: []int{1, 4, 9}})
+			executed++
+			run.Evals++
+			run.Faults.Inc("GC+churn")
+			run.Log.Add("op %d gc", opi)
 			sigged()
 			checkAll(opi, what)
 		case "close":
